@@ -70,6 +70,15 @@ def ledger(index, rep):
             ok = any(e == Rat.const(0) - (pre - a) for (e, s) in facts_from(it, dec) for a in (Rat.const(0), pre - T, r))
             rep.check(ok, rule, f"clamp:population<0 -> 0 [{leaf}]", "the herd is set to zero on a path that does not establish that it was negative",
                       loc=loc(ANIM, fn))
+            # the books of that month say "slaughter 0": the ledger allows end = 0 only when start + additive - deaths - 0 would be negative.
+            # (paths on which the clamp cannot fire at all - e.g. slaughter trimmed to herd - target with target >= 0 - are infeasible)
+            from .rat import feasible
+            neg_op = {"<": ">=", "<=": ">", ">": "<=", ">=": "<", "==": "!=", "!=": "=="}
+            cons = [(it.pred_exprs[k][0], it.pred_exprs[k][1] if v else neg_op[it.pred_exprs[k][1]]) for k, v in dec.items() if k in it.pred_exprs]
+            cons += [(T, ">="), (r, ">="), (cur, ">="), (od, ">="), (add, ">=")]
+            rep.check(not feasible(cons + [(pre, ">")]), rule, f"clamp only when the unslaughtered herd would be negative [{leaf}]",
+                      "the herd can be wiped to zero with slaughter recorded as 0 although start + additive - deaths is positive: animals vanish "
+                      "from the ledger (planned slaughter can exceed the animals available on this path)", loc=loc(ANIM, fn))
             continue
         rep.check(end == pre - actual, rule, f"end = start + additive - deaths - slaughter [{leaf}]",
                   f"the head count after the slaughter step is {end}, not start + additive - (deaths + retirements) - slaughter applied",
